@@ -58,6 +58,22 @@ def check_variant(ctx, item, data, canon, tag, nlb):
     if pos != len(data) or again != canon:
         ctx.violation(dict(base, check="dynamic-decode", pos=pos, reencoded=again[:40].hex(), canon=canon[:40].hex(),
                            what=f"{tag}: Dynamic decode of {data[:16].hex()} consumed {pos}/{len(data)}, canonical re-encode equal={again == canon}"))
+        return
+    prev = c01.dynamic_prev(item)
+    if prev is None:
+        return
+    try:
+        dyn2 = var.Dynamic([])
+        dyn2.set(prev)
+        pos = dyn2.decode(data + GARBAGE, 0)
+        again = bytes(dyn2.encode())
+    except Exception as exc:  # noqa: BLE001
+        ctx.violation(dict(base, check="dynamic-decode-reused", error=type(exc).__name__, previous=repr(prev)[:80],
+                           what=f"{tag}: a Dynamic that held {prev!r} raised {exc!r} when decoding the valid encoding {data[:16].hex()}"))
+        return
+    if pos != len(data) or again != canon:
+        ctx.violation(dict(base, check="dynamic-decode-reused", pos=pos, reencoded=again[:40].hex(), canon=canon[:40].hex(), previous=repr(prev)[:80],
+                           what=f"{tag}: a Dynamic that held {prev!r} decodes {data[:16].hex()} to {again[:16].hex()}"))
 
 
 def check_allowed(ctx, item, data):
